@@ -7,7 +7,7 @@ from hypothesis import strategies as st
 from pbt import strategies as S
 from pbt.common import Stats, Sub, Violation
 from pbt.model import NODELIM, Model
-from pbt.sut import call, mk_converter
+from pbt.sut import mk_incremental_queried, query_everything, call, mk_converter
 
 PROPERTY_ID = "C07"
 RULE = (
@@ -23,11 +23,10 @@ RULE = (
 ASSUMPTIONS = ["oracle: the equivalences of the statement, with pbt/model.py deciding on which side each string is recognised"]
 
 
-def check(case, stats: Stats) -> None:
+def _check_on(c, case, stats: Stats) -> None:
     spec = case["spec"]
     recs, d = spec["records"], spec["delimiter"]
     model = Model(recs, d)
-    c = mk_converter(spec)
     stats.cls("converters")
     strings = list(dict.fromkeys(case["curies"] + case["uris"]))
     for s in strings:
@@ -112,6 +111,20 @@ def cases(draw, tier="quick"):
     return case
 
 
+
+def check(case, stats: Stats) -> None:
+    spec = case["spec"]
+    _check_on(mk_converter(spec), case, stats)
+    # same laws on a converter grown record by record / synonym by synonym with all queries issued after every mutation
+    n = len(spec["records"])
+    inc = mk_incremental_queried(spec, list(reversed(range(n))), lambda c: query_everything(c, case["uris"] + case["curies"], case.get("pairs", [])))
+    try:
+        _check_on(inc, case, Stats())
+    except Violation as v:
+        v.message = "[converter built incrementally with interleaved queries] " + v.message
+        raise
+
+
 SUBS = [
     Sub(
         name="derived_ops",
@@ -121,3 +134,7 @@ SUBS = [
         required_classes=("nt:both-uri-and-curie", "nt:delimiter-free", "nt:empty-string", "neither", "uri", "curie-only"),
     )
 ]
+
+from pbt.fuzzstage import atheris_sub  # noqa: E402
+
+SUBS.append(atheris_sub("C07", SUBS[0].check))
